@@ -336,6 +336,18 @@ func (x *ctx) run(c Case) {
 		g := g
 		x.call("Schema.AddType(regex)", func() error { return s.AddType(g[0], libregex.New(g[0], g[1])) })
 	}
+	// names AddType refuses (taken twice, not a type name): the refusal is a library error like any other
+	if len(c.Types) > 0 {
+		ty := c.Types[0]
+		for _, name := range []string{ty[0], strings.TrimPrefix(ty[0], "@"), "", ty[0] + " | @b"} {
+			name := name
+			x.call("Schema.AddType(refused name)", func() error { return s.AddType(name, js.New(ty[0], ty[1])) })
+		}
+	}
+	if len(c.Regexes) > 0 {
+		g := c.Regexes[0]
+		x.call("Schema.AddType(regex, name taken)", func() error { return s.AddType(g[0], libregex.New(g[0], g[1])) })
+	}
 	x.call("Schema.Len", func() error { _, err := s.Len(); return err })
 	x.call("Schema.Check", s.Check)
 	for _, d := range c.Docs {
